@@ -39,6 +39,7 @@ type PipeConn struct {
 	ClosedBy string // name of the thread that called Close
 	Stream   bool   // true: a Read may return bytes of several writes (TCP); false: one write per Read (datagram-like)
 	NoEOF    bool   // datagram sockets: the peer going away is not observable (no EOF)
+	PostRead bool   // a scheduling point lies between the return of a Read and the caller's next step
 	timedOut bool
 	timer    *vsched.Timer
 	Written  []byte // every byte this end wrote
@@ -101,6 +102,12 @@ func (c *PipeConn) Read(p []byte) (int, error) {
 		if n > 0 {
 			// like a real socket read: the caller's buffer was written by this thread
 			vsched.WriteRange(unsafe.Pointer(&p[0]), n)
+		}
+		if c.PostRead && n > 0 {
+			// the thread may be descheduled between the system call's return and its next
+			// instruction: without this point, state shared between two readers (a buffer
+			// hoisted out of the reading function, say) could never be observed mixed up
+			vsched.Point("read-return "+c.Name, always)
 		}
 		return n, nil
 	}
